@@ -459,6 +459,7 @@ static void c11(const Trace& t, const Analysis& A, Verdict& V) {
 				}
 				if (e.prev.valid && e.prev.dest != e.mAct) V.add(11, w.e - 1, "after replay previousTransition().destination is not the active state");
 				// what was applied is the replayed transition: it names the destination and nothing else (no requester, no payload of some earlier request)
+				if (b.b == 1 && e.prev.valid && (e.prev.hasPay || e.prev.origin != NOID)) V.add(11, w.e - 1, F("after replayEnter(%u) previousTransition() reads %s: it still carries the origin / payload of a transition of an earlier activation", b.a, trStr(e.prev).c_str()));
 				if (b.b == 0 && ret == 1 && e.prev.valid && (e.prev.hasPay || e.prev.origin != NOID)) V.add(11, w.e - 1, F("after replayTransition(%u) previousTransition() reads %s: it still carries the origin / payload of an earlier, unrelated transition", b.a, trStr(e.prev).c_str()));
 			}
 		}
